@@ -49,3 +49,22 @@ Proof.
     bdestruct; cbn; try reflexivity; try (apply G; lia).
 Qed.
 End S.
+
+(* ICH n followed by DCH n at the same position: the row is what it was, except that the n cells pushed over the right
+   edge are gone for good (blank default cells at the end of the row) *)
+Lemma c13_ich_then_dch a n r c : c < a_cols a ->
+  a_grid (a_dch (a_ich a n) n) r c =
+  if (r =? ay a) && (ax a <=? c) && (a_cols a <=? c + hat n) then adc a else a_grid a r c.
+Proof.
+  intros Hc. set (b := a_ich a n).
+  assert (Ex : ax b = ax a) by reflexivity. assert (Ey : ay b = ay a) by reflexivity.
+  assert (Ec : a_cols b = a_cols a) by reflexivity. assert (Ed : adc b = adc a) by reflexivity.
+  assert (G : forall r c, a_grid b r c = if (r =? ay a) && (ax a <=? c) then (if c <? ax a + hat n then adc a else a_grid a (ay a) (c - hat n)) else a_grid a r c) by reflexivity.
+  unfold a_dch. cbn [a_grid a_with_grid]. rewrite Ex, Ey, Ec, Ed, !G. clearbody b.
+  destruct (N.eqb_spec r (ay a)) as [->|Hr]; cbn [andb]; [|reflexivity].
+  rewrite N.eqb_refl. cbn [andb].
+  destruct (N.leb_spec (ax a) c); cbn [andb]; [|reflexivity].
+  destruct (N.ltb_spec (c + hat n) (a_cols a)), (N.leb_spec (a_cols a) (c + hat n)); try lia; [|reflexivity].
+  destruct (N.leb_spec (ax a) (c + hat n)); [|lia]. destruct (N.ltb_spec (c + hat n) (ax a + hat n)); [lia|].
+  f_equal. lia.
+Qed.
